@@ -30,19 +30,30 @@ def run(c):
         r = vlib.model_check(c.wd, "MC_Oracle", cfg, workers=1, tfile=tfile, timeout=1200)
         gen += r["generated"]
         dist += r["distinct"]
+    # the 20-block cadence (band hook ; market hook) as a second bounded model, every transition a vector
+    bfile = os.path.join(c.wd, "TB.txt")
+    bgrid = [(1, 1), (2, 2)] if quick else [(n, g) for n in (1, 2, 3) for g in (1, 2, 3)]
+    for n, g in bgrid:
+        cfg = "MC_Band_N%dG%d.cfg" % (n, g)
+        with open(os.path.join(c.wd, cfg), "w") as f:
+            f.write("SPECIFICATION Spec\nCONSTANTS N = %d  Gap = %d  Rates = {0, 1, 5}\n"
+                    "INVARIANTS NoPanic OnlyFull MeanExact IndexInWindow\nVIEW View\nCHECK_DEADLOCK FALSE\n" % (n, g))
+        r = vlib.model_check(c.wd, "MC_Band", cfg, workers=1, tfile=bfile, timeout=1200)
+        gen += r["generated"]
+        dist += r["distinct"]
     logf = os.path.join(c.wd, "oracle.ndjson")
     runs, steps = (60, 60) if quick else (1500, 120)
-    vlib.run_vh(["oracle", "--vectors", tfile, "--out", logf, "--seed", str(c.seed), "--runs", str(runs), "--steps", str(steps)])
+    vlib.run_vh(["oracle", "--vectors", tfile, "--band", bfile, "--out", logf, "--seed", str(c.seed), "--runs", str(runs), "--steps", str(steps)])
     tr = vlib.trace_check(c.wd, "Trace_Oracle", "Trace_Oracle.cfg", logf, workers=4)
     c.judge(tr, logf)
     nodes = vlib.read_log(logf)
     c.samples = [nodes[0], nodes[len(nodes) // 2], nodes[-1]]
     st = tr["stats"]
-    if st.get("meanChecked", 0) == 0 or st.get("zeroSamples", 0) == 0 or st.get("bigValues", 0) == 0:
+    if min(st.get(k, 0) for k in ("meanChecked", "zeroSamples", "bigValues", "cycles", "discards")) == 0:
         raise vlib.NoVerdict("vacuous run: %s" % st)
     return c.finish("model_checking", dict(
         states=dist, transitions=gen, traces_validated_against_impl=len(nodes),
-        model_configs=["N=%d,Gap=%d" % x for x in grid], trace_states=tr.get("distinct"), antecedents=st,
+        model_configs=["Oracle N=%d,Gap=%d" % x for x in grid] + ["Band N=%d,Gap=%d" % x for x in bgrid], trace_states=tr.get("distinct"), antecedents=st,
         exhaustive=True,
         rule="every transition of the bounded model (N x Gap grid, samples {0,1,2,5}) is one vector on the real UpdatePriceList / market.BeginBlocker; "
              "plus seeded behaviours with 0 / repeated / 2^64-1 samples for two priced assets; each node is a TLC state of Trace_Oracle"),
